@@ -1680,6 +1680,10 @@ func (r *reedSolomon) Join(dst io.Writer, shards [][]byte, outSize int) error {
 		return ErrTooFewShards
 	}
 	shards = shards[:r.dataShards]
+	if outSize < 0 {
+		// A negative size can never be supplied.
+		return ErrShortData
+	}
 
 	// Do we have enough data?
 	size := 0
